@@ -6,7 +6,7 @@ import pepper
 
 ID = "C02"
 LEVEL = "proof"
-THEOREMS = ["C02_import_first_match", "C02_args_bound", "C02_args_arity", "C02_signal_parity", "C02_instance_names_prefixed", "C02_compile_keeps_prefix", "C02_load_well_prefixed", "C02_emitted_names_prefixed", "C02_instances_disjoint"]
+THEOREMS = ["C02_import_first_match", "C02_args_bound", "C02_args_arity", "C02_signal_parity", "C02_instance_names_prefixed", "C02_compile_keeps_prefix", "C02_load_well_prefixed", "C02_emitted_names_prefixed", "C02_instances_disjoint", "C02_signal_lines_resolve", "C02_equal_line_meaning"]
 TRUSTED = ["harness/pepper.py: generator of component / system libraries in a directory tree (sub-directories, include directories, decoys), printer of .sys files, expected_system_den (the specification oracle)",
            "pyparsing grammar of .sys statements is exercised, not modelled; os.path is modelled by path_join / dirname / normalize"]
 ASSUMPTIONS = ["instance arguments are integers; include directories are given relative to the invocation directory without '..'"]
